@@ -153,6 +153,10 @@ def generate(rng, tier, index):
             n = " " + n
         elif r < 0.2:
             n = n + "\t"
+        elif r < 0.24:
+            # angle brackets: characters of the name (a pseudo-name like
+            # '<stdin>' has both)
+            n = rng.choice([n + ">", "<" + n, "<" + n + ".bak"])
         return n
     res = [{"id": "r0", "dir": cfg_home,
             "file": top_name(".conf"), "children": []}]
